@@ -163,7 +163,7 @@ Adv(inp, st) ==       \* read(): moving onto a byte that is not valid UTF-8 reco
 InSyms(c, syms) == \E i \in 1..Len(syms) : syms[i] = c
 SeqV(vals) == [k |-> "seq", es |-> vals]
 
-RECURSIVE PE(_, _, _, _, _), PLit(_, _, _, _, _), PSeq(_, _, _, _, _, _, _, _), PChoice(_, _, _, _, _), PStar(_, _, _, _, _)
+RECURSIVE PE(_, _, _, _, _), PEraw(_, _, _, _, _), PLit(_, _, _, _, _), PSeq(_, _, _, _, _, _, _, _), PChoice(_, _, _, _, _), PStar(_, _, _, _, _)
 
 PLit(val, i, inp, st, start) ==
   IF i > Len(val) THEN R(TRUE, st, Nil, EmptyF)
@@ -190,8 +190,24 @@ PStar(e, inp, st, vals, fr) ==
   ELSE IF r.ok THEN PStar(e, inp, r.st, Append(vals, r.v), fr)
   ELSE R(TRUE, r.st, IF vals = <<>> THEN Nil ELSE SeqV(vals), EmptyF)      \* a repetition that matched nothing yields nil
 
+\* Engine invariants, asserted on every parseExpr call TLC evaluates: the step counter and the error list only grow, the
+\* budget is overrun by at most one step, a failing expression leaves the position where it started (predicates always do),
+\* a matcher that succeeds advances, nothing moves backwards past the start of the input.
+Contract(e, st0, r) ==
+  /\ r.st.cnt > st0.cnt /\ r.st.errs >= st0.errs
+  /\ (st0.max > 0 => r.st.cnt <= st0.max + 1)
+  /\ (r.st.ab => ~r.ok)
+  /\ (~r.st.ab /\ ~r.ok => r.st.pos = st0.pos)
+  /\ (~r.st.ab /\ e.t \in {"and", "not", "andcode"} => r.st.pos = st0.pos)
+  /\ (~r.st.ab /\ r.ok => r.st.pos >= st0.pos)
+  /\ (~r.st.ab /\ r.ok /\ e.t \in {"lit", "cls", "any"} /\ (e.t # "lit" \/ Len(e.chars) > 0) => r.st.pos > st0.pos)
+
 \* fr = the labels already set in the current frame; the unused last argument keeps the arities distinct
 PE(e, inp, st0, fr, z) ==
+  LET r == PEraw(e, inp, st0, fr, z) IN
+  IF Contract(e, st0, r) THEN r ELSE Assert(FALSE, <<"engine invariant broken at", e.t, st0, r.st>>)
+
+PEraw(e, inp, st0, fr, z) ==
   LET st == Bump(st0) IN
   IF st.max > 0 /\ st.cnt > st.max THEN R(FALSE, [st EXCEPT !.ab = TRUE], Nil, EmptyF)
   ELSE
